@@ -3,6 +3,7 @@ import ColoVerif.Proofs.SpreadGrid
 import ColoVerif.Proofs.SpreadExport
 import ColoVerif.Proofs.SpreadFree
 import ColoVerif.Proofs.GlobalLoop
+import ColoVerif.Proofs.SpreadFWitness
 /-
 C06 — global placement stays inside the placement area and exports the blend.
 
@@ -10,10 +11,15 @@ All theorems are about the definitions of `ColoVerif/Model/Spread.lean`, which `
 executes against `HierarchicalDensityPlacement::spreadCoordX/Y`, `simpleCoordX/Y`,
 `DensityGrid::fromIspdCircuit` and (end to end) `Circuit::placeGlobal`.
 
-They are **partial with respect to single precision**: the model evaluates the C++
-expressions in `Rat`.  What is not proved (finiteness of the conjugate-gradient iterates,
-float rounding — a coordinate may round onto a bin edge —, absence of exceptions) is monitored
-by the direct oracle of `harness/h_C06.cpp`; see `tools/props/C06.py`.
+The first block is over `Rat` (the C++ expressions evaluated exactly).  The block "binary32" is about
+`ColoVerif/Model/SpreadF.lean`: `spreadCells`/`spreadCoordX/Y` as compiled, every operation followed by one
+round-to-nearest-even to binary32; `drv_C06` (op `spreadf`) compares it with the real `spreadCoordX/Y` float
+for float, exactly.  In binary32 a coordinate can leave the closed bin (`spreadF_can_leave_bin`), by more than
+one half for adversarial demand mixes (`spreadF_can_exceed_half`); what is proved for all inputs is the
+enclosure of a coordinate in terms of the final running share (`spreadF_enclosure_partial`) and that an
+excursion below one half vanishes in the export rounding (`exposed_centre_within_half`).  Not proved:
+finiteness of the conjugate-gradient iterates, absence of exceptions, the bound on the running share
+(`spreadF_enclosure_full_statement`); see `tools/props/C06.py`.
 
 The last block is about the control logic of `GlobalPlacer::run` (`ColoVerif/Model/GlobalLoop.lean`):
 the float solves and values enter as an oracle trace, everything else (initial solves, stop test,
@@ -202,6 +208,135 @@ theorem ub_exposed_centre (v : Rat) (w A B : Int) (hA : (A : Rat) ≤ v) (hB : v
   obtain ⟨h1, h2⟩ := round_err (v - (1 / 2) * (w : Rat))
   unfold exportCoord
   constructor <;> linarith
+
+/-! ### binary32: `spreadCells` as compiled (`Model/SpreadF.lean`) -/
+
+open ColoVerif.SpreadF in
+/-- (a) In binary32 the coordinate of a positive-demand cell can lie strictly OUTSIDE the closed bin, on
+both sides (kernel-evaluated on the model the driver runs against `spreadCoordX/Y`): three cells of demands
+2, 8222228, 1 in the bin `[0, 2]` — the last one is placed at `2 + 2^-22`; two cells of demands 4, 2858381 in
+`[3946, 3970]` — the first one is placed at `3946 − 2^-12`. -/
+theorem spreadF_can_leave_bin :
+    (2 : Rat) < (spreadCellsF [0, 1, 2] [2, 8222228, 1] 0 2).getD 2 0 ∧
+    (spreadCellsF [0, 1] [4, 2858381] 3946 3970).getD 0 0 < (3946 : Rat) := by
+  rw [witness_up, witness_low]
+  constructor <;> norm_num
+
+open ColoVerif.SpreadF in
+/-- …and by more than one half, so that the export rounding does NOT absorb it: ten cells of demands
+16776988, 1×6, 2×3 (total just below 2^24, targets increasing) in the bin `[0, 4000000]`: every addition to the
+running share rounds up, it ends at `1 + 3·2^-22`, the last cell is placed at `4000002.5` and the exported
+centre of a zero-width cell there is `4000003 > 4000000 + 1/2`.  (Proposed known finding KF-C06-3.) -/
+theorem spreadF_can_exceed_half :
+    (4000000 : Rat) + 1 / 2 <
+      (exportCoord ((spreadCellsF [0, 1, 2, 3, 4, 5, 6, 7, 8, 9] [16776988, 1, 1, 1, 1, 1, 1, 2, 2, 2] 0 4000000).getD 9 0) 0 : Rat)
+        + (1 / 2) * ((0 : Int) : Rat) := by
+  rw [witness_drift.1]
+  have : exportCoord (8000005 / 2) 0 = 4000003 := by decide +kernel
+  rw [this]; norm_num
+
+open ColoVerif.SpreadF in
+/-- (b), what is proved for ALL inputs: with non-negative demands and `lo ≤ hi`, the binary32 coordinate of
+every positive-demand cell is within `epsF δ lo hi = δ(hi−lo) + (1+δ)(|lo|+|hi|)·4·2^-24 + 8·2^-150` of the closed
+bin, where `1 + δ` bounds the FINAL running share `dem` of the loop (`finalShareF`, the same fold the driver
+executes).  Ingredients: one rounding moves `x` by at most `|x|·2^-24 + 2^-150` (no range condition); the
+running share never decreases, so every mid-share is between 0 and the final one; four roundings in the
+coordinate expression.  Missing for the full statement: the bound on the final share in terms of the number
+of cells. -/
+theorem spreadF_enclosure_partial (targets demands : List Rat) (lo hi δ : Rat)
+    (hnn : ∀ d ∈ demands, 0 ≤ d) (hlh : lo ≤ hi) (hδ0 : 0 ≤ δ)
+    (hshare : finalShareF targets demands lo hi ≤ 1 + δ)
+    (i : Nat) (hi' : i < targets.length) (hpos : 0 < demands.getD i 0) :
+    lo - epsF δ lo hi ≤ (spreadCellsF targets demands lo hi).getD i 0 ∧
+    (spreadCellsF targets demands lo hi).getD i 0 ≤ hi + epsF δ lo hi := by
+  obtain ⟨dem, d0, d1, e⟩ := spreadCellsF_form targets demands lo hi hnn i hi' hpos
+  rw [e]
+  exact coordAtF_enclosure d0 (le_trans d1 hshare) hδ0 hlh
+
+open ColoVerif.SpreadF in
+/-- non-vacuity of `spreadF_enclosure_partial` on the drift witness: the final share is `1 + 3·2^-22` and the
+last coordinate `4000002.5` is within `epsF (3·2^-22) 0 4000000 ≈ 3.8` of the bin -/
+example : (spreadCellsF [0, 1, 2, 3, 4, 5, 6, 7, 8, 9] [16776988, 1, 1, 1, 1, 1, 1, 2, 2, 2] 0 4000000).getD 9 0 ≤
+    4000000 + epsF (3 / 4194304) 0 4000000 :=
+  (spreadF_enclosure_partial _ _ 0 4000000 (3 / 4194304)
+    (by intro d hd; simp at hd; rcases hd with rfl | rfl | rfl <;> norm_num) (by norm_num) (by norm_num)
+    (by rw [witness_drift.2]; norm_num) 9 (by simp) (by simp)).2
+
+open ColoVerif.SpreadF in
+/-- the share slack conjectured for a bin of `n` cells: `(1 + 2^-24)^(4n+4) − 1 ≤ K/(1 − K)`, `K = (4n+4)·2^-24`
+(`2n` roundings in `std::accumulate` and the reciprocal, two per half share, `2n` additions to `dem`) -/
+def shareSlack (n : Nat) : Rat := ((4 * n + 4 : Nat) : Rat) * u32 / (1 - ((4 * n + 4 : Nat) : Rat) * u32)
+
+open ColoVerif.SpreadF in
+/-- (b) at full strength — NOT proved: demands that are binary32 values, zero or at least 1 (they are
+`(float) cellDemand`), of exact sum at most `2^100`, at most `2^20` cells: every positive-demand cell is within
+`epsF (shareSlack n) lo hi` of its bin.  What is missing is `finalShareF ≤ 1 + shareSlack n`; everything else
+is `spreadF_enclosure_partial`.  The witness of `spreadF_can_exceed_half` shows that a slack linear in the
+number of cells is really attained (`3·2^-22` with 10 cells), so no radius below one half exists on the whole
+domain (limits up to `2^22`, a few hundred cells per bin). -/
+def spreadF_enclosure_full_statement : Prop :=
+  ∀ (targets demands : List Rat) (lo hi : Rat), demands.length = targets.length → targets.length ≤ 2 ^ 20 →
+    (∀ d ∈ demands, d = 0 ∨ (1 ≤ d ∧ fl d = d)) → demands.sum ≤ 2 ^ 100 → lo ≤ hi →
+    ∀ i, i < targets.length → 0 < demands.getD i 0 →
+      lo - epsF (shareSlack targets.length) lo hi ≤ (spreadCellsF targets demands lo hi).getD i 0 ∧
+      (spreadCellsF targets demands lo hi).getD i 0 ≤ hi + epsF (shareSlack targets.length) lo hi
+
+open ColoVerif.SpreadF in
+/-- the radius is below one half on the domain of the end-to-end stream and well beyond it: share slack at
+most `2^-14`, bins at most 2048 wide, limits up to `2^18` in magnitude.  (At `2^22` the four roundings of the
+coordinate expression alone can move a coordinate by more than one half: binary32 has a spacing of 1/4
+there.) -/
+theorem spreadF_radius_below_half (δ lo hi : Rat) (h0 : 0 ≤ δ) (hδ : δ ≤ 1 / 16384) (hw : hi - lo ≤ 2048)
+    (hlo : |lo| ≤ 262144) (hhi : |hi| ≤ 262144) : epsF δ lo hi < 1 / 2 :=
+  epsF_lt_half h0 hδ hw hlo hhi
+
+/-- (c) The "up to rounding" of the statement, for a float centre that left the area by less than one half:
+for any `x` with `A − ε ≤ x ≤ B + ε`, `ε < 1/2`, `A B` integers and an integer width `w`, the exported position
+`p = round(x − w/2)` (half away from zero) has its centre `p + w/2` in `[A − 1/2, B + 1/2]` — the same
+tolerance as `ub_exposed_centre` (`2p + w` is an integer strictly between `2A − 2` and `2B + 2`). -/
+theorem exposed_centre_within_half (x ε : Rat) (w A B : Int) (hε : ε < 1 / 2)
+    (hA : (A : Rat) - ε ≤ x) (hB : x ≤ (B : Rat) + ε) :
+    (A : Rat) - 1 / 2 ≤ (exportCoord x w : Rat) + (1 / 2) * (w : Rat) ∧
+    (exportCoord x w : Rat) + (1 / 2) * (w : Rat) ≤ (B : Rat) + 1 / 2 :=
+  ColoVerif.SpreadF.exposed_within_half x ε w A B hε hA hB
+
+/-- non-vacuity of `exposed_centre_within_half`: `x = 10.4` is outside `[0, 10]`, width 3: exported 9, centre 10.5 -/
+example : (exportCoord (52 / 5) 3 : Rat) + (1 / 2) * ((3 : Int) : Rat) ≤ ((10 : Int) : Rat) + 1 / 2 :=
+  (exposed_centre_within_half (52 / 5) (2 / 5) 3 0 10 (by norm_num) (by norm_num) (by norm_num)).2
+
+open ColoVerif.SpreadF in
+/-- (a)+(b)+(c) per bin, the binary32 version of `ub_centre_inside` + `ub_exposed_centre`: a bin `[lo, hi]` with
+integer limits inside `[A, B]`, non-negative demands, final running share at most `1 + δ` and radius
+`epsF δ lo hi < 1/2`: the centre exposed for every positive-demand cell of the bin (any integer width) lies in
+`[A − 1/2, B + 1/2]`, although the float coordinate itself may be outside `[lo, hi]`. -/
+theorem binF_exposed_centre_inside (targets demands : List Rat) (lo hi A B w : Int) (δ : Rat)
+    (hnn : ∀ d ∈ demands, 0 ≤ d) (hlh : lo ≤ hi) (hA : A ≤ lo) (hB : hi ≤ B) (hδ0 : 0 ≤ δ)
+    (hshare : finalShareF targets demands (lo : Rat) (hi : Rat) ≤ 1 + δ)
+    (hε : epsF δ (lo : Rat) (hi : Rat) < 1 / 2)
+    (i : Nat) (hi' : i < targets.length) (hpos : 0 < demands.getD i 0) :
+    (A : Rat) - 1 / 2 ≤ (exportCoord ((spreadCellsF targets demands (lo : Rat) (hi : Rat)).getD i 0) w : Rat) + (1 / 2) * (w : Rat) ∧
+    (exportCoord ((spreadCellsF targets demands (lo : Rat) (hi : Rat)).getD i 0) w : Rat) + (1 / 2) * (w : Rat) ≤ (B : Rat) + 1 / 2 := by
+  obtain ⟨e1, e2⟩ := spreadF_enclosure_partial targets demands (lo : Rat) (hi : Rat) δ hnn (by exact_mod_cast hlh) hδ0 hshare i hi' hpos
+  have a : (A : Rat) ≤ (lo : Rat) := by exact_mod_cast hA
+  have b : (hi : Rat) ≤ (B : Rat) := by exact_mod_cast hB
+  exact exposed_centre_within_half _ (epsF δ (lo : Rat) (hi : Rat)) w A B hε (by linarith) (by linarith)
+
+open ColoVerif.SpreadF in
+/-- non-vacuity of `binF_exposed_centre_inside` on the witness of `spreadF_can_leave_bin`: the float coordinate
+`2 + 2^-22` is outside the bin `[0, 2]`, the exposed centre is not -/
+example : (exportCoord ((spreadCellsF [0, 1, 2] [2, 8222228, 1] ((0 : Int) : Rat) ((2 : Int) : Rat)).getD 2 0) 0 : Rat)
+    + (1 / 2) * ((0 : Int) : Rat) ≤ ((2 : Int) : Rat) + 1 / 2 :=
+  (binF_exposed_centre_inside [0, 1, 2] [2, 8222228, 1] 0 2 0 2 0 (1 / 16384)
+    (by intro d hd; simp at hd; rcases hd with rfl | rfl | rfl <;> norm_num) (by decide) (by decide) (by decide)
+    (by norm_num)
+    (by
+      have : finalShareF [0, 1, 2] [2, 8222228, 1] ((0 : Int) : Rat) ((2 : Int) : Rat) = 4194305 / 4194304 := by
+        unfold finalShareF
+        rw [sortedOrder_of_sorted _ (by decide +kernel)]
+        decide +kernel
+      rw [this]; norm_num)
+    (spreadF_radius_below_half _ _ _ (by norm_num) (by norm_num) (by norm_num) (by norm_num) (by norm_num))
+    2 (by simp) (by simp)).2
 
 /-- `GlobalPlacer::exportPlacement(circuit)`: on each axis the returned coordinate of a movable
 cell is `round((1−β)·lb + β·ub − size/2)` (the `β = 0` and `β = 1` short-cuts of
